@@ -9,7 +9,7 @@ import subprocess
 import sys
 
 PY = "/venv/bin/python"
-WT = "/tmp/wt/verify"
+WT = os.environ.get("VERIFY_WT", "/tmp/wt/verify")
 BASE = {"pinned": "63 passed", "lisp_parsers_tests": "88 passed", "models_tests": "142 passed", "exporters_tests": "11 passed", "multi_agent_tests": "32 passed"}
 
 
